@@ -109,10 +109,11 @@ def run_regrid(ctx, n):
         inp = {"function": "regrid.regrid", "x": xs, "y": ys, "step": step}
         try:
             ax, ay = common.any_layout(ctx.rng, np.array(xs), 0.2), common.any_layout(ctx.rng, np.array(ys), 0.2)
+            snap_x, snap_y = common.snapshot(ax), common.snapshot(ay)
             with common.session_logging(ctx.rng, 0.15):
                 got = [(int(k), float(x)) for k, x in rg.regrid(ax, ay, step)]
             err = None
-            if not (common.same_as_snapshot(ax, np.array(xs)) and common.same_as_snapshot(ay, np.array(ys))):
+            if not (common.same_as_snapshot(ax, snap_x) and common.same_as_snapshot(ay, snap_y)):
                 err = "the caller's arrays were modified by regrid"
         except Exception as e:  # noqa
             got, err = None, "%s: %s" % (type(e).__name__, e)
